@@ -263,7 +263,12 @@ def run_behaviour(steps, seed_hex="5e" * 64, world=None, private_gens=None, tag=
                     elif what == "xprv":
                         got = wl.node_extended_private_key(node)
                     else:
-                        got = wl.bip85.wif(index=len(path)) if wl.bip85 is not None else None
+                        # the abstract "bip85" request is concretised to a rotating application / parameter choice
+                        b85 = [lambda b, i: b.wif(index=i), lambda b, i: b.bip39_mnemonic(word_count=12, index=i),
+                               lambda b, i: b.bip39_mnemonic(word_count=24, index=i), lambda b, i: b.xprv(index=i),
+                               lambda b, i: b.hex(num_bytes=16, index=i), lambda b, i: b.pwd(pwd_len=20, index=i),
+                               lambda b, i: b.bip39_mnemonic(word_count=18, index=i)][(si + len(path)) % 7]
+                        got = b85(wl.bip85, len(path)) if wl.bip85 is not None else None
                     err = None
                 except Exception as ex:
                     got, err = None, ex
@@ -277,7 +282,7 @@ def run_behaviour(steps, seed_hex="5e" * 64, world=None, private_gens=None, tag=
                     fn = W.fresh(w, path)
                     ref = fn.private_key.wif(testnet=wl.testnet) if what == "wif" else \
                         wl.node_extended_private_key(fn) if what == "xprv" else \
-                        PaperWallet.from_extended_key(W.root_xprv).bip85.wif(index=len(path))
+                        b85(PaperWallet.from_extended_key(W.root_xprv).bip85, len(path))
                     if got != ref:
                         raise Mismatch("purity", "%s of %s/%s differs from the stateless recomputation" % (what, w, path_str(path)))
                     if what != "bip85":
